@@ -36,8 +36,10 @@ ASSUMPTIONS = ["numpy/pandas number parsing and printf formatting are correct",
                "tolerance of fixed-point formats (half a printed digit in file units), never for expected values",
                "styles with a density column are not generated under `units electron` (LAMMPS defines no density "
                "unit there)",
-               "the 0.001 margin by which System.wrap extends non-periodic boundaries is not asserted, only that "
-               "the loaded cell contains the original cell and all atoms along unchanged directions"]
+               "the 0.001 margin by which System.wrap extends non-periodic boundaries is not asserted: along an "
+               "extended direction only 'same direction, contains the old cell and every atom' is required",
+               "on a tree where a listed finding blocks a whole clause (pandas readers, POSCAR writer) the non-vacuity "
+               "guards of that clause are switched off (probe in _tree_state); the oracles never consult the probe"]
 LEVEL_TEXT = ("generated systems written by atomman and read back in all four text formats (all atom styles incl. "
               "hybrid pairs, 8 unit styles, 4 float formats, scaled/unwrapped dump columns, POSCAR direct/Cartesian with "
               "scale factors), compared with an independent snapshot to the printed precision; shuffled atom lines, "
@@ -45,7 +47,7 @@ LEVEL_TEXT = ("generated systems written by atomman and read back in all four te
               "files must raise FileFormatError")
 TECHNIQUE = ("round trip against an independent numpy snapshot with printed-precision tolerances; metamorphic "
              "text perturbation (line order, comments, blank lines, input source); negative cases by section deletion")
-WALL = {'quick': 70, 'thorough': 560}
+WALL = {'quick': 60, 'thorough': 540}
 
 EPS = 2.3e-16
 K_PANDAS = 'C08:pandas:delim_whitespace'
@@ -458,7 +460,12 @@ def oracle_data(case):
         L0 = _load(am, 'atom_data', text, **kw)
         what = "load('atom_data') of dump(atom_style=%r, units=%r, float_format=%r)" % (style, units, fmt)
         require(L0.natoms == n, lambda: '%s: natoms %d, expected %d' % (what, L0.natoms, n))
-        Ulen = unit_scale(am, units, 'length')
+        def U(q):
+            # hybrid styles have been seen to write their columns in metal units whatever `units` is (C07's finding):
+            # the printed precision of such a file is that of the coarser of the two units
+            u = unit_scale(am, units, q)
+            return max(u, unit_scale(am, 'metal', q)) if style.startswith('hybrid') and units != 'lj' else u
+        Ulen = U('length')
         T = data_tolerances(S, fmt, Ulen)
         labels |= check_wrapped_cell(L0, S, T, what)
         require(list(L0.pbc) == list(S['pbc']), lambda: '%s: pbc %r, passed %r' % (what, L0.pbc, S['pbc']))
@@ -470,7 +477,7 @@ def oracle_data(case):
         cmp_values('pos', L0.atoms.pos, S['pos'], T['tpos'], what + ' [image flags re-applied]')
         for name, shape, dt, q in carried:
             exp = S['props'][name]
-            cmp_values(name, L0.atoms.view[name], exp, tol_for(fmt, unit_scale(am, units, q), exp), what)
+            cmp_values(name, L0.atoms.view[name], exp, tol_for(fmt, U(q), exp), what)
         # ---- perturbed text, other source: identical result
         s = S['s']
         # image-flag columns present?  (decided from the column count of the first atom line against the style table)
@@ -957,7 +964,10 @@ def oracle_poscar(case):
         got = np.asarray(L0.atoms.pos, dtype=float)
         absVsum = np.abs(V).sum(axis=0)
         if cart:
-            tp = tol_for(fmt, 1.0, S['pos'] / scale) * scale * (1 + relscale) + relscale * np.abs(S['pos']) + 32 * EPS * np.abs(S['pos'])
+            # the Cartesian coordinates may be printed divided by the scale factor (VASP convention) or as they are
+            # (atomman's historic convention, read back the same way): printed precision of the coarser of the two
+            tp = np.maximum(tol_for(fmt, 1.0, S['pos'] / scale) * scale, tol_for(fmt, 1.0, S['pos'])) * (1 + relscale) \
+                + relscale * np.abs(S['pos']) + 32 * EPS * np.abs(S['pos'])
             cands = [S['pos'], S['pos'] - o]
             tols = [tp, tp + 64 * EPS * np.abs(o)]
         else:
@@ -1050,7 +1060,12 @@ def oracle_reject(case):
     tmp = _Tmp()
     try:
         system = G.make_system(am, S)
-        text = system.dump('atom_data', atom_style=opt['style'], units=opt['units'], float_format=opt['fmt'])[0]
+        try:
+            text = system.dump('atom_data', atom_style=opt['style'], units=opt['units'], float_format=opt['fmt'])[0]
+        except KeyError as e:
+            if e.args == ('None',) and opt['units'] == 'lj':      # not generated any more; kept for old replay files
+                raise Violation("dump('atom_data', units='lj') raises KeyError('None')", key=K_LJ_ANG) from None
+            raise
         text = perturb_data(text, n, pert)
         bad = mutilate(text, n, case['remove'])
         src = tmp.source(pert['source'], bad)
@@ -1081,24 +1096,24 @@ def oracle_reject(case):
 # ============================================================================= clauses
 
 CLAUSES = [
-    Clause('data_file', oracle_data, data_cases, quick=2600, thorough=45000,
+    Clause('data_file', oracle_data, data_cases, quick=2400, thorough=40000,
            min_share=_Guards({'nt': 0.08, 'imageflags': 0.1, 'shuffled': 0.02, 'hybrid': 0.05, 'extended': 0.2,
                               'velocities': 0.14, 'comments_blank': 0.11, 'multitype': 0.06}, 0),
            desc="load('atom_data', dump('atom_data')): cell after the documented wrap, types, positions with image flags "
                 "re-applied, every style column and the Velocities section, all styles/units/formats; shuffled lines, "
                 "comments, blank lines, string/path/stream give the identical system"),
-    Clause('dump_file', oracle_dump, dump_cases, quick=2200, thorough=40000,
+    Clause('dump_file', oracle_dump, dump_cases, quick=2000, thorough=36000,
            min_share=_Guards({'nt': 0.09, 'shuffled': 0.08, 'with_prop_info': 0.16, 'own_ids': 0.09, 'scaled_cols': 0.05}, 0),
            desc="load('atom_dump', dump('atom_dump')): cell from bounding box, pbc flags, ids, types, pos/spos/upos/supos, "
                 "standard columns with units and free properties with their shape through the returned prop_info"),
-    Clause('table', oracle_table, table_cases, quick=2200, thorough=40000,
+    Clause('table', oracle_table, table_cases, quick=1800, thorough=30000,
            min_share=_Guards({'nt': 0.2, 'rank2plus': 0.2, 'unit_conv': 0.14, 'header': 0.15, 'shuffled': 0.04}, 0),
            desc="load('table', dump('table'), prop_info=<returned>): every property with shape, unit/scaled conversion "
                 "undone, header line, comments, blank lines, id column"),
-    Clause('poscar', oracle_poscar, poscar_cases, quick=2500, thorough=45000,
+    Clause('poscar', oracle_poscar, poscar_cases, quick=2000, thorough=36000,
            min_share=_Guards({'nt': 0.2, 'cartesian': 0.25, 'scaled_box': 0.3, 'type_gap': 0.15, 'symbols_line': 0.2, 'multitype': 0.14}, 1),
            desc="load('poscar', dump('poscar')): cell (scale factor), types grouped, symbols line, positions as type-wise "
                 "multisets (direct: relative coordinates; Cartesian: up to the origin shift)"),
-    Clause('reject', oracle_reject, reject_cases, quick=1500, thorough=25000, min_share={'nt': 0.35},
+    Clause('reject', oracle_reject, reject_cases, quick=1200, thorough=20000, min_share={'nt': 0.35},
            desc="a data file without its atom count, a bounds line or its Atoms section raises FileFormatError"),
 ]
